@@ -58,6 +58,37 @@ def str_script(c):
     return f"join({v}, {lit(c['d'])})" if c["fn"] == "join" else f"to_string({v})"
 
 
+CH = {"T": "\\t"}
+
+
+def chars(a):
+    return "".join(CH.get(x, x) for x in a)
+
+
+def extra_script(fam, c):
+    fn, a, n = c["fn"], c["a"], c["n"]
+    if fam == "c":
+        lit = '"' + chars(a) + '"'
+        ws = "fun(x) { x == ' ' || x == '\\t' }"
+        collect = lambda rng: f"var o = \"\"; var r = {rng}; while (!r.empty()) {{ o.push_back(r.front()); r.pop_front() }}; o"
+        return {"ltrim": f"{lit}.ltrim()", "rtrim": f"{lit}.rtrim()", "trim": f"{lit}.trim()", "reverse": f"reverse({lit})",
+                "retro": collect(f"retro(range({lit}))"), "retro_retro": collect(f"retro(retro(range({lit})))"),
+                "take_while_ws": f"take_while({lit}, {ws})", "drop_while_ws": f"drop_while({lit}, {ws})",
+                "filter_nows": f"filter({lit}, fun(x) {{ !(x == ' ' || x == '\\t') }})", "concat_self": f"concat({lit}, {lit})", "new": f"new({lit})",
+                "take": f"take({lit}, {n})", "drop": f"drop({lit}, {n})"}[fn]
+    v = vec(a)
+    collect = lambda rng: f"var inp = {v}; var o = Vector(); var r = {rng}; while (!r.empty()) {{ o.push_back(r.front()); r.pop_front() }}; o"
+    return {"retro": collect("retro(range(inp))"), "retro_retro": collect("retro(retro(range(inp)))"), "find": collect(f"find(inp, {n})"),
+            "collate": f"collate({a[0] if a[0] >= 0 else '(' + str(a[0]) + ')'}, {a[1] if a[1] >= 0 else '(' + str(a[1]) + ')'})" if fn == "collate" else "",
+            "new": f"new({v})"}[fn]
+
+
+def extra_expected(fam, c):
+    if fam == "c":
+        return "string:" + json.dumps("".join("\t" if x == "T" else x for x in c["exp"])).replace("\\t", "\\u0009")   # the harness renders control characters as \u00XX
+    return rvec(c["exp"])
+
+
 def expected(c):
     e = c["exp"]
     t = e["t"]
@@ -95,8 +126,8 @@ def run(ck, tier, seed):
     if not res.ok:
         ck.violation("model", f"Prelude specification inconsistent: {res.violation}", res.output[-2000:])
     work = lib.scratch("c17")
-    o1, o2, o3 = os.path.join(work, "v.ndjson"), os.path.join(work, "s.ndjson"), os.path.join(work, "t.ndjson")
-    r = lib.tlc("PreludeExport", "PreludeExport" + suffix, workers=1, timeout=1200, env={"OUT": o1, "OUT2": o2, "OUT3": o3}, heap="6g")
+    o1, o2, o3, o4, o5 = (os.path.join(work, x) for x in ("v.ndjson", "s.ndjson", "t.ndjson", "c.ndjson", "m.ndjson"))
+    r = lib.tlc("PreludeExport", "PreludeExport" + suffix, workers=1, timeout=1200, env={"OUT": o1, "OUT2": o2, "OUT3": o3, "OUT4": o4, "OUT5": o5}, heap="6g")
     if not r.ok:
         raise lib.Infra("Prelude export failed")
     cs = lib.read_ndjson(o1) + lib.read_ndjson(o2)
@@ -104,6 +135,9 @@ def run(ck, tier, seed):
     strs = lib.read_ndjson(o3)
     for i, c in enumerate(strs):
         cases.append({"id": f"s{i}", "to": 30, "steps": [{"op": "eval", "src": str_script(c)}]})
+    extra = [("c", c) for c in lib.read_ndjson(o4)] + [("m", c) for c in lib.read_ndjson(o5)]
+    for i, (fam, c) in enumerate(extra):
+        cases.append({"id": f"x{i}", "to": 30, "steps": [{"op": "eval", "src": extra_script(fam, c)}]})
     vdrive = lib.build("vdrive", "plain")
     obs, _ = lib.run_driver(vdrive, cases, work, tag="c17")
     ck.exhaustive = True
@@ -132,9 +166,18 @@ def run(ck, tier, seed):
         want = "string:" + json.dumps(c["exp"])
         if s.get("oc") != "val" or s.get("v") != want:
             ck.violation(key, f"{str_script(c)} gave {s.get('v') or s.get('oc')}, the specification says {want}", {"case": c, "observed": s})
+    for i, (fam, c) in enumerate(extra):
+        o = obs[f"x{i}"]
+        ck.evaluations += 1
+        ck.nontrivial.add((fam + ":" + c["fn"], len(c["a"]), len(c["exp"])))
+        key = f"{c['fn']}({json.dumps(c['a'])},n={c['n']})"
+        st = o.get("steps", [{}])[0] if "died" not in o else {"oc": "died"}
+        want = extra_expected(fam, c)
+        if st.get("oc") != "val" or st.get("v") != want:
+            ck.violation(key, f"{extra_script(fam, c)} gave {st.get('v') or st.get('oc')}, the specification says {want}", {"case": c, "observed": st})
     ck.rule = ("all vectors of length 0..%d over {-1,0,1,2} x callbacks {gt0,true,false,odd | inc,neg | add,sub,first} x numeric arguments "
                "{-1,0,1,size,size+1}; scalars -5..5; distinct = (function, callback, length, result kind)" % (3 if quick else 4))
     ck.sample({"script": script(cs[0]), "expected": expected(cs[0])})
     ck.sample({"script": script(cs[len(cs) // 2]), "expected": expected(cs[len(cs) // 2])})
-    ck.assumptions += ["vectors of strings are covered for join/to_string only; map inputs, retro/range adaptors, find and the trim helpers are not in the exported family yet"]
+    ck.assumptions += ["strings as containers (trim family, take/drop/filter/reverse/concat), retro, find, collate, new and string vectors for join/to_string are covered; map inputs, find and the trim helpers are not in the exported family yet"]
     lib.rm(work)
